@@ -26,7 +26,48 @@ pub struct C10;
 
 const NTP_OFFSET: u64 = 2_208_988_800;
 
+/// A publication that FAILS in the middle of the life of an instance (full-FDT mode, Raptor FDT of 1400-byte
+/// symbols: listing one object it fits one symbol, listing two it needs two, which Raptor cannot encode): the
+/// offending object is removed at once; the instance in force must still be renewed on time.
+fn gen_failed_publication(rng: &mut Rng) -> Scn {
+    let mut spec = SenderSpec::basic(OtiSpec::new(Scheme::Raptor, 1400, 64, 1, true));
+    spec.full_fdt = true;
+    spec.queues = vec![(0, 2)];
+    let d = *rng.pick(&[40u64, 60, 90]);
+    spec.fdt_duration_ms = d * 1000;
+    spec.fdt_carousel = CarouselSpec::DelayMs(5000);
+    spec.fdt_start_id = rng.range(1, 1000) as u32;
+    let mut a = ObjectSpec::basic(rng.range(10, 100) as usize, rng.next_u64(), 0);
+    a.oti = Some(OtiSpec::new(Scheme::NoCode, 16, 4, 0, true));
+    a.carousel = Some(CarouselSpec::DelayMs(3000));
+    let mut x = ObjectSpec::basic(rng.range(10, 100) as usize, rng.next_u64(), 1);
+    x.oti = Some(OtiSpec::new(Scheme::NoCode, 16, 4, 0, true));
+    let t1 = rng.range(6, d - 10) * 1_000_000 + rng.range(0, 999_999);
+    let horizon = (2 * d + d / 2) * 1_000_000;
+    let ops = vec![
+        TimedOp { when: When::AtUs(0), op: Op::Add(0) },
+        TimedOp { when: When::AtUs(0), op: Op::Publish },
+        TimedOp { when: When::AtUs(t1), op: Op::Add(1) },
+        TimedOp { when: When::AtUs(t1), op: Op::Publish },
+        TimedOp { when: When::AtUs(t1), op: Op::Remove(1) },
+        TimedOp { when: When::AtUs(horizon), op: Op::Remove(0) },
+        TimedOp { when: When::AtUs(horizon), op: Op::Publish },
+    ];
+    let poll = PollSpec {
+        start_us: rng.range(0, 999_999),
+        gap: GapSpec::FixedUs(*rng.pick(&[250_000u64, 1_000_000])),
+        burst: None,
+        max_polls: 60_000,
+        max_pkts: 20_000,
+        idle_polls_after_done: 0,
+    };
+    Scn { sender: SenderScn { spec, objects: vec![a, x], ops, poll, snapshots: false }, with_receiver: false }
+}
+
 pub fn gen(rng: &mut Rng, _tier: Tier) -> Scn {
+    if rng.chance(0.05) {
+        return gen_failed_publication(rng);
+    }
     let soti = gen_sender_oti(rng, None);
     let mut spec = gen_sender_spec(rng, soti);
     // FDT duration from seconds to days; the liveness rule needs the run to outlast it
